@@ -406,6 +406,8 @@ MUTANTS["C02"] = [
     M("collect_worst", ARCH, "if max(self.get_throughput_sum(k_tmp)) < best_kernel_tp:", "if max(self.get_throughput_sum(k_tmp)) > best_kernel_tp:", "P4"),
     M("swap_when_better", ARCH, "if max(self.get_throughput_sum(kernel)) > best_kernel_tp:", "if max(self.get_throughput_sum(kernel)) < best_kernel_tp:", "P4"),
     M("swap_only_uops", ARCH, "                    kernel[i].port_uops = best_kernel[i].port_uops\n                    kernel[i].port_pressure = best_kernel[i].port_pressure", "                    kernel[i].port_uops = best_kernel[i].port_uops", "P4"),
+    M("swap_uops_conditionally_keeps_bottleneck", ARCH, "                    kernel[i].port_uops = best_kernel[i].port_uops\n                    kernel[i].port_pressure = best_kernel[i].port_pressure",
+      "                    if isinstance(kernel[i].port_uops, dict):\n                        kernel[i].port_uops = instr.port_uops\n                    kernel[i].port_pressure = instr.port_pressure", "SILENT", "breaks C01 (R1b), not the bottleneck"),
     M("balance_always", ARCH, "                if len(set(port_sums)) > 1:", "                if len(set(port_sums)) >= 1:", "P5"),
     M("optimise_also_fixed", CLI, "    if not args.fixed:\n        semantics.assign_optimal_throughput(kernel)", "    if True:\n        semantics.assign_optimal_throughput(kernel)", "P6"),
     M("budget_doubled", ARCH, "for _ in range(int(cycles * (1 / INC))):", "for _ in range(int(2 * cycles * (1 / INC))):", "P2"),
@@ -514,4 +516,66 @@ MUTANTS["C10"] = [
     M("env_no_register_range", PA, '                ^ pp.delimitedList(pp.Combine(self.list_element), delim="-").setResultsName(\n                    "range"\n                )\n', "", None, tier="thorough"),
     M("env_no_sp_alias", PA, "            (alias_r31_sp | alias_r31_zr | vector | scalar | predicate | register_list)\n            # (alias", "            (alias_r31_zr | vector | scalar | predicate | register_list)\n            # (alias", "R7", tier="thorough"),
     M("env_float_needs_exponent", PA, "double_ = pp.Group(mantissa + pp.Optional(exponent)).setResultsName(\"double\")", "double_ = pp.Group(mantissa + exponent).setResultsName(\"double\")", "R7", tier="thorough"),
+]
+
+MUTANTS["C19"] += [
+    M("terminate_instead_of_kill", KDG, "                                os.kill(p.pid, signal.SIGKILL)", "                                p.terminate()", "R3", "SIGTERM can be caught or ignored"),
+    M("process_kill_is_fine", KDG, "                                os.kill(p.pid, signal.SIGKILL)", "                                p.kill()", "SILENT", "Process.kill() sends SIGKILL"),
+]
+MUTANTS["C04"] += [
+    M("sink_only_for_chain_ends", KDG, "            for instruction_form in self.kernel:\n                if dg.has_node(instruction_form.line_number + 0.1):", "            for instruction_form in self.kernel:\n                if dg.out_degree(instruction_form.line_number) > 0:\n                    continue\n                if dg.has_node(instruction_form.line_number + 0.1):", "R3", "seeded change C04"),
+]
+MUTANTS["C16"] += [
+    M("floor_with_capped_workers", KDG, "            num_cores = cpu_count()\n            workload = int((klen - 1) / num_cores) + 1", "            num_cores = min(cpu_count(), klen)\n            workload = klen // num_cores", "R1", "seeded change C16"),
+    M("capped_workers_ceiling_ok", KDG, "            num_cores = cpu_count()\n", "            num_cores = min(cpu_count(), klen)\n", "SILENT", "any positive worker count satisfies the lemma"),
+    M("floor_inside_max", KDG, "workload = int((klen - 1) / num_cores) + 1", "workload = max(1, klen // num_cores)", "R1", "seeded change C05"),
+]
+MUTANTS["C17"] += [
+    M("runtime_cache_first", HW, "            # Check runtime cache\n            if self._path in MachineModel._runtime_cache and not lazy:\n                self._data = MachineModel._runtime_cache[self._path]\n            # check if file is cached\n            cached = self._get_cached(self._path) if not lazy else False",
+      "            cached = False\n            if not lazy:\n                cached = MachineModel._runtime_cache.get(self._path) or self._get_cached(self._path)", "R5", "seeded change C17"),
+]
+
+_DBC_OLD = '''        if instr_form["throughput"] is None:
+            missing_throughput.append(instr_form)
+        if instr_form["latency"] is None:
+            missing_latency.append(instr_form)
+        if instr_form["port_pressure"] is None:
+            missing_port_pressure.append(instr_form)
+'''
+_DBC_TABLE = '''        for key, missing in (
+            ("throughput", missing_throughput),
+            ("latency", missing_latency),
+            ("port_pressure", missing_port_pressure),
+        ):
+            if instr_form[key] is None:
+                missing.append(instr_form)
+'''
+MUTANTS["C15"] += [
+    M("dbcheck_table_driven_with_break", DBI, _DBC_OLD, _DBC_TABLE + "                break\n", "D2", "seeded change C15"),
+    M("dbcheck_table_driven", DBI, _DBC_OLD, _DBC_TABLE, "SILENT", "behaviour-preserving table-driven rewrite"),
+    M("dbcheck_elif_chain", DBI, '        if instr_form["latency"] is None:\n            missing_latency.append(instr_form)', '        elif instr_form["latency"] is None:\n            missing_latency.append(instr_form)', "D2"),
+]
+
+MUTANTS["C13"] += [
+    M("text_selects_last_of_ties", FE, "            longest_lcd = max(dep_dict, key=lambda ln: dep_dict[ln][\"latency\"])\n            lcd_sum = dep_dict[longest_lcd][\"latency\"]\n            lcd_lines = {\n                instr.line_number: lat for instr, lat in dep_dict[longest_lcd][\"dependencies\"]\n            }\n\n        port_line",
+      "            longest_lcd = sorted(dep_dict, key=lambda ln: dep_dict[ln][\"latency\"])[-1]\n            lcd_sum = dep_dict[longest_lcd][\"latency\"]\n            lcd_lines = {\n                instr.line_number: lat for instr, lat in dep_dict[longest_lcd][\"dependencies\"]\n            }\n\n        port_line", "R1", "seeded change C13"),
+]
+MUTANTS["C05"] += [
+    M("text_selects_last_of_ties_is_a_maximum", FE, "            longest_lcd = max(dep_dict, key=lambda ln: dep_dict[ln][\"latency\"])\n            lcd_sum = dep_dict[longest_lcd][\"latency\"]\n            lcd_lines = {\n                instr.line_number: lat for instr, lat in dep_dict[longest_lcd][\"dependencies\"]\n            }\n\n        port_line",
+      "            longest_lcd = sorted(dep_dict, key=lambda ln: dep_dict[ln][\"latency\"])[-1]\n            lcd_sum = dep_dict[longest_lcd][\"latency\"]\n            lcd_lines = {\n                instr.line_number: lat for instr, lat in dep_dict[longest_lcd][\"dependencies\"]\n            }\n\n        port_line", "SILENT", "still a maximum-latency cycle: C05 holds (C13 does not)"),
+]
+
+MUTANTS["C01"] += [
+    M("swap_uops_conditionally", ARCH, "                    kernel[i].port_uops = best_kernel[i].port_uops\n                    kernel[i].port_pressure = best_kernel[i].port_pressure",
+      "                    if isinstance(kernel[i].port_uops, dict):\n                        kernel[i].port_uops = instr.port_uops\n                    kernel[i].port_pressure = instr.port_pressure", "R1b", "seeded change C01"),
+]
+
+MUTANTS["C09"] += [
+    M("hex_regex_without_sign", PX, '        hex_number = pp.Combine(\n            pp.Optional(pp.Literal("-")) + pp.Literal("0x") + pp.Word(pp.hexnums)\n        ).setResultsName("value")', '        hex_number = pp.Regex(r"0x[0-9a-fA-F]+").setResultsName("value")', "T", "seeded change C09"),
+    M("decimal_as_regex_is_fine", PX, '        decimal_number = pp.Combine(\n            pp.Optional(pp.Literal("-")) + pp.Word(pp.nums)\n        ).setResultsName("value")', '        decimal_number = pp.Regex(r"-?[0-9]+").setResultsName("value")', "SILENT", "behaviour-preserving rewrite of a terminal"),
+    M("hex_as_regex_is_fine", PX, '        hex_number = pp.Combine(\n            pp.Optional(pp.Literal("-")) + pp.Literal("0x") + pp.Word(pp.hexnums)\n        ).setResultsName("value")', '        hex_number = pp.Regex(r"-?0x[0-9a-fA-F]+").setResultsName("value")', "SILENT", "behaviour-preserving rewrite of a terminal"),
+]
+MUTANTS["C10"] += [
+    M("range_wraparound_string_compare", PA, "            for name in range(int(start_name), int(end_name) + 1):\n                reg = deepcopy(base_register)\n                if index is not None:\n                    reg[\"index\"] = int(index, 0)\n                reg[\"name\"] = str(name)",
+      "            last = int(end_name) + (32 if end_name < start_name else 0)\n            for name in range(int(start_name), last + 1):\n                reg = deepcopy(base_register)\n                if index is not None:\n                    reg[\"index\"] = int(index, 0)\n                reg[\"name\"] = str(name % 32)", "R10", "seeded change C10"),
 ]
